@@ -1,12 +1,16 @@
 #!/bin/bash
 # Runs every seeded change under /verif/seeded against the quick check of the property it breaks
-# (and any extra properties given in meta.json "also_check"), prints one line per pair.
+# (plus the extra properties listed in seeded/ALSO.txt as "<seed-id> <property>"), 3 at a time;
+# writes seeded/RESULTS.txt (one line per pair).
 cd /verif
 claimed=$(/venv/bin/python -c "import json;print(' '.join(c['property_id'] for c in json.load(open('MANIFEST.json'))['checks']))")
+pairs=""
 for d in seeded/*/; do
   id=$(basename $d)
-  p=$(/venv/bin/python -c "import json;m=json.load(open('$d/meta.json'));print(' '.join([m['property']]+m.get('also_check',[])))")
-  for q in $p; do
-    case " $claimed " in *" $q "*) selftest/run_seeded.sh $id $q ;; *) echo "$id $q: property not claimed yet" ;; esac
-  done
+  [ -f $d/meta.json ] || continue
+  p=$(/venv/bin/python -c "import json;print(json.load(open('$d/meta.json'))['property'])")
+  pairs="$pairs $id:$p"
 done
+[ -f seeded/ALSO.txt ] && while read id p; do pairs="$pairs $id:$p"; done < seeded/ALSO.txt
+for x in $pairs; do echo $x; done | xargs -P 3 -I{} bash -c 'x={}; selftest/run_seeded.sh ${x%%:*}__${x##*:} ${x##*:}' 2>&1 | grep -v conda | sort > seeded/RESULTS.txt
+cat seeded/RESULTS.txt
